@@ -390,6 +390,11 @@ class FileDescriptor(_ConsumerMixin, _LogOwner):
         streaming producer is registered, it will be paused until the buffered
         data is written to the underlying file descriptor.
         """
+        if not isinstance(iovec, (list, tuple)):
+            # Any iterable of bytes is allowed, including a one-shot iterator
+            # or a generator, which can be traversed only once (and is always
+            # true): take its elements before looking at them.
+            iovec = list(iovec)
         for i in iovec:
             _dataMustBeBytes(i)
         if not self.connected or not iovec or self._writeDisconnected:
